@@ -23,6 +23,7 @@ def family():
     yield from F.fam_clones()
     yield from F.fam_clone_markers()
     yield from F.fam_clones_static_and_reared()
+    yield from F.fam_clone_guards()
 
 
 def rel_paths(prog):
